@@ -1987,7 +1987,9 @@ func (m Dot11MgmtReassociationReq) SerializeTo(b gopacket.SerializeBuffer, opts 
 	binary.LittleEndian.PutUint16(buf[0:2], m.CapabilityInfo)
 	binary.LittleEndian.PutUint16(buf[2:4], m.ListenInterval)
 
-	copy(buf[4:10], m.CurrentApAddress)
+	// An address shorter than 6 bytes is padded with zeros.
+	n := copy(buf[4:10], m.CurrentApAddress)
+	clear(buf[4+n : 10])
 
 	return nil
 }
